@@ -370,6 +370,8 @@ type vc10seed struct {
 	hasRe bool
 	decSz int
 	cold  uint64
+
+	prepared, usable bool
 }
 
 type vc10unit struct {
@@ -541,6 +543,20 @@ func VerifC10RunUnit(unit string, from, to int, skip map[int]bool, progress func
 		if skipN < 0 {
 			skipN = 0
 		}
+		cnt := vmutationCount(s.data)
+		if idx+cnt <= from { // entirely before the requested range
+			idx += cnt
+			continue
+		}
+		if idx >= to {
+			res.Next = to
+			finish()
+			return
+		}
+		if !s.prepare(u) {
+			idx += cnt
+			continue
+		}
 		n, done := vmutate(s.data, skipN, run(s, idx))
 		if res.Sample == "" && from == 0 {
 			res.Sample = fmt.Sprintf("seed %s = %s (%d bytes)", s.id, vtrunc(hex.EncodeToString(s.data), 160), len(s.data))
@@ -559,7 +575,6 @@ func VerifC10RunUnit(unit string, from, to int, skip map[int]bool, progress func
 // vc10seeds builds the seeds of a unit: the valid encodings (accepted by encoder and decoder) of the unit's values.
 func vc10seeds(u *vc10unit) (seeds []*vc10seed, engErr string) {
 	cfg := u.fam.Cfgs[u.cfg]
-	_, dec := u.fam.encdec(cfg)
 	var ids []vcaseID
 	base := vcaseID{fam: u.fam.Name, ver: u.ver, cfg: u.cfg}
 	switch {
@@ -586,32 +601,44 @@ func vc10seeds(u *vc10unit) (seeds []*vc10seed, engErr string) {
 			continue
 		}
 		dup[string(r.b0)] = true
-		s := &vc10seed{id: id.String(), data: r.b0, root: r.root}
-		// the valid seed must decode (otherwise it is a C09 matter, not a seed)
-		runtime.GC()
-		runtime.GC() // empty sync.Pools: the cold cost of a legitimate decode is the codec's working set
-		v, err, alloc := vdecodeMeasured(dec, append([]byte{}, r.b0...), u.ver)
-		if err != nil {
-			continue
-		}
-		s.cold = alloc
-		s.recs = vrecordList(v)
-		s.regs, s.hasRe = vrecordRegions(r.root, r.b0)
-		vvisit(v, func(x reflect.Value) {
-			switch x.Type() {
-			case vtBatch:
-				if rb := x.Addr().Interface().(*RecordBatch); rb.Codec != CompressionNone {
-					s.decSz += rb.recordsLen
-				}
-			case vtMessage:
-				if m := x.Addr().Interface().(*Message); m.Codec != CompressionNone {
-					s.decSz += len(m.Value)
-				}
-			}
-		})
-		seeds = append(seeds, s)
+		seeds = append(seeds, &vc10seed{id: id.String(), data: r.b0, root: r.root})
 	}
 	return seeds, ""
+}
+
+// prepare decodes the valid seed (reference records, checksummed regions, decompressed size, codec working set).
+// It reports false if sarama cannot decode the seed (a C09 matter): such a seed is not mutated.
+func (s *vc10seed) prepare(u *vc10unit) bool {
+	if s.prepared {
+		return s.usable
+	}
+	s.prepared = true
+	_, dec := u.fam.encdec(u.fam.Cfgs[u.cfg])
+	v, err, _ := vdecodeMeasured(dec, append([]byte{}, s.data...), u.ver)
+	if err != nil {
+		return false
+	}
+	s.usable = true
+	s.recs = vrecordList(v)
+	s.regs, s.hasRe = vrecordRegions(s.root, s.data)
+	vvisit(v, func(x reflect.Value) {
+		switch x.Type() {
+		case vtBatch:
+			if rb := x.Addr().Interface().(*RecordBatch); rb.Codec != CompressionNone {
+				s.decSz += rb.recordsLen
+			}
+		case vtMessage:
+			if m := x.Addr().Interface().(*Message); m.Codec != CompressionNone {
+				s.decSz += len(m.Value)
+			}
+		}
+	})
+	if s.decSz > 0 {
+		runtime.GC()
+		runtime.GC() // empty sync.Pools: the cold cost of a legitimate decode is the codec's working set
+		_, _, s.cold = vdecodeMeasured(dec, append([]byte{}, s.data...), u.ver)
+	}
+	return true
 }
 
 // vexecEncodeOnly builds and encodes a C09 case (no oracles).
@@ -762,6 +789,10 @@ func VerifC10RunCase(caseID string) (viol []VerifViolation, report string, err e
 			skip := n - idx
 			if skip < 0 {
 				break
+			}
+			if c := vmutationCount(s.data); idx+c <= n || !s.prepare(u) {
+				idx += c
+				continue
 			}
 			cnt, _ := vmutate(s.data, skip, one(s, idx))
 			idx += cnt
